@@ -30,7 +30,7 @@ def dense_case(cid, Phi, Psi, w, wc, wt, ft=True):
     try:
         with warnings.catch_warnings():
             warnings.simplefilter("ignore")
-            kn = KernelNormalizer(with_center=wc, with_trace=wt).fit(K.copy(), sample_weight=sw)
+            kn = core.mk(KernelNormalizer, with_center=wc, with_trace=wt).fit(K.copy(), sample_weight=sw)
             a, b = q(kn.transform(K.copy()), SQ), q(kn.transform(Kt.copy()), SQ)
             sc = q([kn.scale_], SQ)
             f = q(KernelNormalizer(with_center=wc, with_trace=wt).fit_transform(K.copy(), sample_weight=sw), SQ) if ft else []
@@ -62,7 +62,7 @@ def sparse_case(cid, Phi, A, w, wc, wt, rng=None):
             cu = float(rng.choice([1.0, 1.0, 1e-3, 30.0])) if rng is not None else 1.0
             rc = float(rng.choice([1e-12, 1e-12, 1e-4])) if rng is not None else 1e-12
             back = cu if wt else cu * cu
-            sk = SparseKernelCenterer(with_center=wc, with_trace=wt, rcond=rc).fit(Knm * cu * cu, Kmm * cu * cu, sample_weight=sw)
+            sk = core.mk(SparseKernelCenterer, with_center=wc, with_trace=wt, rcond=rc).fit(Knm * cu * cu, Kmm * cu * cu, sample_weight=sw)
             T = sk.transform(Knm * cu * cu) / back
             Tft = SparseKernelCenterer(with_center=wc, with_trace=wt, rcond=rc).fit_transform(Knm * cu * cu, Kmm * cu * cu, sample_weight=sw) / back
             c["units"] = [cu, rc]
